@@ -14,6 +14,8 @@ import (
 	"strings"
 )
 
+var chanRe = regexp.MustCompile(`^channel-[0-9]{1,20}$`)
+var clientRe = regexp.MustCompile(`^\w+([\w-]+\w)?-[0-9]{1,20}$`)
 var idRe = regexp.MustCompile(`^[a-zA-Z0-9\.\_\+\-\#\[\]\<\>]+$`)
 
 var realUFs = map[string]bool{"dec": true, "undec": true, "pu_ok": true, "sha256": true, "hexenc": true, "hexencU": true, "hexdec": true, "hex_ok": true, "tolower": true, "toupper": true, "trimspace": true, "be64": true, "unbe64": true, "intenc": true, "intdec": true}
@@ -24,7 +26,7 @@ func collectUFApps(ts []*T, seen map[*T]bool, out *[]*T) {
 			continue
 		}
 		seen[t] = true
-		if t.Op == "uf" && (realUFs[t.Name] || strings.HasPrefix(t.Name, "idvalid_")) && len(t.Args) == 1 {
+		if t.Op == "uf" && (realUFs[t.Name] || strings.HasPrefix(t.Name, "idvalid_") || t.Name == "chanid_ok" || t.Name == "clientid_ok") && len(t.Args) == 1 {
 			*out = append(*out, t)
 		}
 		collectUFApps(t.Args, seen, out)
@@ -63,6 +65,25 @@ func realValue(name string, arg *T) (*T, bool) {
 		return BoolConst(ok), true
 	}
 	switch name {
+	case "chanid_ok":
+		if !chanRe.MatchString(arg.Str) {
+			return tFalse, true
+		}
+		_, err := strconv.ParseUint(strings.TrimPrefix(arg.Str, "channel-"), 10, 64)
+		return BoolConst(err == nil), true
+	case "clientid_ok":
+		if arg.Str == "09-localhost" {
+			return tTrue, true
+		}
+		if !clientRe.MatchString(arg.Str) {
+			return tFalse, true
+		}
+		parts := strings.Split(arg.Str, "-")
+		if strings.TrimSpace(strings.Join(parts[:len(parts)-1], "-")) == "" {
+			return tFalse, true
+		}
+		_, err := strconv.ParseUint(parts[len(parts)-1], 10, 64)
+		return BoolConst(err == nil), true
 	case "dec":
 		return StrConst(strconv.FormatUint(arg.BV, 10)), true
 	case "undec":
